@@ -39,7 +39,7 @@ def templates(tier, seed=0):
     ts.append(history(2, 4 if tier == 'quick' else 6))
     if tier == 'thorough': ts.append(history(3, 3))
     # literal: source order, later entry wins, shorthand, spread, computed names
-    ts.append({'name': 'literal-order', 'src': 'fn t(x) {\n    print(x)\n    return x\n}\na := 5\nsrc := {"c": 7, "a": 8}\nn := "b"\no := {"b": t(1), "a": t(2), n: t(3), a, src.., "c": t(4), n + "x": t(6)}\nprint(o)\nc := 9\nprint({"c": 1, c})\nprint({src.., c})\nprint({src.., c, "c": t(7)})\nprint({c, src..})\n'})
+    ts.append({'name': 'literal-order', 'src': 'fn t(x) {\n    print(x)\n    return x\n}\na := 5\nsrc := {"c": 7, "a": 8}\nn := "b"\no := {"b": t(1), "a": t(2), n: t(3), a, src.., "c": t(4), n + "x": t(6)}\nprint(o)\nfn tk(s) {\n    print("name")\n    return s\n}\nks := ["k0", "k1", "k2"]\nix := 0\nfn bump() {\n    ix += 1\n    return ix\n}\nprint({tk("p"): t(8), ks[ix]: bump(), ks[ix]: bump()})\nc := 9\nprint({"c": 1, c})\nprint({src.., c})\nprint({src.., c, "c": t(7)})\nprint({c, src..})\n'})
     # all insertion orders give indistinguishable objects
     perms = list(itertools.permutations(['o.b = @h11@', 'o["a"] = @h10@', 'o[" x"] = @h12@']))
     ts.append({'name': 'insertion-orders', 'src': '\n'.join(['s := @h0@', 'o := {}'] + ladder('s', ['\n'.join(p) for p in perms]) +
